@@ -16,7 +16,8 @@ from . import ctl, net
 PROP = "C06"
 LEVEL = "proof"
 ASSUMPTIONS = [
-    "PARTIAL: proved are 'the normal configuration is a fixed point of a quiet increment' and the closed form of the sectioning timer (runs out after exactly ceil(T/dt) quiet passes); bounded return to normal from every reachable state is stated in Lean (ReturnsToNormal) but not proved - it is decided on every generated history of this run, on the model and on the implementation",
+    "proved for every reachable state of every well-formed configuration (manual and ICT-based control): a section is out of service only while it contains a failed line; once every line is repaired every section is in service and no controller lists a failed section (C06.out_of_service_only_with_reason / all_repaired_all_in_service); the normal configuration is a fixed point of a quiet increment; a sectioning timer runs out after exactly ceil(T/dt) quiet passes",
+    "PARTIAL: the remaining step to the full statement - that the breakers reclose, lines and disconnectors return to service and timers reach zero within the bound (ReturnsToNormal) - is stated in Lean and not proved; it is decided on every generated history of this run, on the model and on the implementation",
 ]
 F = Fraction
 
